@@ -83,6 +83,12 @@ func (w *world) fn(ctx context.Context) (int, error) {
 	case 2: // immediate error
 		core.YieldN("oncex.fn", c.S.Plan(3))
 		fc.err = fmt.Errorf("fn-error-%d", fc.n)
+		if c.S.PlanP(120) && ctx.Err() == nil {
+			// an ordinary failure whose error value is the context.Canceled sentinel
+			// (Resolve treats it as a cancelled attempt: the callers try again)
+			c.S.Count("probe:canceled-sentinel-result")
+			fc.err = context.Canceled
+		}
 		return 0, fc.err
 	case 3, 4: // wait for the driver's gate or cancellation; on cancellation return ctx.Err()
 		g := make(chan struct{})
